@@ -684,19 +684,44 @@ namespace c15
       if(c.nviol) return;
       // (1)
       { const Index ncheck = std::min<Index>(nc, maxn > 30 ? 3 : 6); for(Index t = 0; t < ncheck && !c.nviol; ++t) deriv_check(c, space, nc <= ncheck ? t : Index(c.rng.below(nc)), op); }
+      // condition-aware tolerances for elements whose evaluator inverts an unscaled monomial matrix per cell (Argyris):
+      // A = max over cells of (longest edge)^2 / (2 area) (2 for a right isosceles triangle), hmin = shortest edge
+      double dual_tol = D_::dual_tol, trace_tol = D_::trace_tol;
+      if(D_::cond_scaled)
+      {
+        double A = 2, hmin = 1; cell_quality(spec, A, hmin);
+        const double f = std::pow(std::max(1.0, A / 2), 3);
+        trace_tol = std::max(trace_tol, 1e-11 * f);
+        dual_tol = std::max(dual_tol, 1e-11 * f / (hmin * hmin));
+      }
       // (2), (3)
-      do_nodefunc(c, spec, info, space, op, std::integral_constant<bool, (SpaceType::have_node_func != 0)>());
+      do_nodefunc(c, spec, info, space, op, dual_tol, std::integral_constant<bool, (SpaceType::have_node_func != 0)>());
       // (4b)
-      if(D_::h1 && !c.nviol) trace_check(c, spec, *mesh, space, op, D_::trace_tol);
+      if(D_::h1 && !c.nviol) trace_check(c, spec, *mesh, space, op, trace_tol);
     }
-    static void do_nodefunc(vh::Ctx& c, const vm::MeshSpec<Shape_>& spec, const MeshInfo& info, const SpaceType& space, const std::string& op, std::true_type)
+    static void cell_quality(const vm::MeshSpec<Shape_>& spec, double& A, double& hmin)
+    {
+      if(!(R::simplex && dim == 2)) return;
+      A = 0; hmin = 1e300;
+      for(Index k = 0; k < spec.num_cells(); ++k)
+      {
+        double e2max = 0;
+        for(int a = 0; a < 3; ++a) for(int b = a + 1; b < 3; ++b)
+        {
+          double dx = spec.verts[spec.cells[k][std::size_t(a)]][0] - spec.verts[spec.cells[k][std::size_t(b)]][0], dy = spec.verts[spec.cells[k][std::size_t(a)]][1] - spec.verts[spec.cells[k][std::size_t(b)]][1];
+          e2max = std::max(e2max, dx * dx + dy * dy); hmin = std::min(hmin, std::sqrt(dx * dx + dy * dy));
+        }
+        A = std::max(A, e2max / (2 * std::fabs(double(vm::cell_volume(spec, k)))));
+      }
+    }
+    static void do_nodefunc(vh::Ctx& c, const vm::MeshSpec<Shape_>& spec, const MeshInfo& info, const SpaceType& space, const std::string& op, double dual_tol, std::true_type)
     {
       if(!c.nviol) poly_check(c, spec, info, space, op, D_::poly_tol);
       const Index nc = spec.num_cells();
       const Index ncheck = std::min<Index>(nc, maxn > 30 ? 1 : 3);
-      for(Index t = 0; t < ncheck && !c.nviol; ++t) duality_check(c, space, nc <= ncheck ? t : Index(c.rng.below(nc)), op, D_::dual_tol);
+      for(Index t = 0; t < ncheck && !c.nviol; ++t) duality_check(c, space, nc <= ncheck ? t : Index(c.rng.below(nc)), op, dual_tol);
     }
-    static void do_nodefunc(vh::Ctx& c, const vm::MeshSpec<Shape_>&, const MeshInfo&, const SpaceType&, const std::string&, std::false_type)
+    static void do_nodefunc(vh::Ctx& c, const vm::MeshSpec<Shape_>&, const MeshInfo&, const SpaceType&, const std::string&, double, std::false_type)
     { c.count("no_node_functionals"); }
   };
 
@@ -713,7 +738,7 @@ namespace c15
   struct DescBase
   {
     static constexpr int qdeg = 0;
-    static constexpr bool h1 = false, affine_only = false, force_grad = false;
+    static constexpr bool h1 = false, affine_only = false, force_grad = false, cond_scaled = false;
     static constexpr double poly_tol = 1e-10, dual_tol = 1e-9, trace_tol = 1e-10;
   };
 } // namespace c15
